@@ -297,6 +297,8 @@ _public_ int m_mod_ps_subscribe(m_mod_t *mod, const char *topic, m_src_flags fla
                     old_sub->userptr = userptr;
                     return 0;
                 }
+                /* Flags changed: the entry is keyed by the old subscription's topic string, that dies with it; drop it first */
+                m_map_remove(mod->subscriptions, topic);
             }
         }
 
